@@ -99,8 +99,8 @@ class TokModel:
         t = terms.subst(t, flags) if flags else t
         t = self.concretise(t, w)
         nz = norm.Normalizer()
-        for _ in range(3):
-            t2 = nz(partial.simplify(char_fold(t)))
+        for _ in range(4):
+            t2 = nz(partial.simplify(table_fold(char_fold(t), nz)))
             if t2 == t:
                 break
             t = t2
@@ -151,7 +151,8 @@ class TokModel:
     # ------------------------------------------------------------------------------------------ decisions
     def decide(self, w, flags=None):
         """Outcomes of one iteration for input prefix w: [("token", term, residual) | ("err", term, residual)]."""
-        fl = {self.pn[i]: ("lit", v) for i, v in (flags or {}).items()} if flags else {}
+        ft = getattr(self, "flag_terms", {})
+        fl = {self.pn[i]: (v if isinstance(v, tuple) else ft.get((i, v), ("lit", v))) for i, v in (flags or {}).items()} if flags else {}
         out = []
         for st in self.pushes:
             ok, res = self._eval_pc(st.pc, w, fl)
@@ -159,6 +160,8 @@ class TokModel:
                 continue
             tok = self._eval(st.args[1], w, fl)
             for conds, leaf in leaves(tok):
+                if leaf == terms.NEVER:
+                    continue          # this arm of the token expression left the iteration (continue / return): nothing is pushed
                 extra = []
                 feasible = True
                 for c, pol in conds:
@@ -248,6 +251,50 @@ def char_fold(t, memo=None):
               "is_uppercase": str.isupper, "is_lowercase": str.islower}.get(l)
         if fn is not None and "char" in r[1]:
             r = ("lit", bool(fn(ch)))
+    memo[k] = (t, r)
+    return r
+
+
+def table_fold(t, nz, memo=None):
+    """A search in a table of literals with a predicate that can be decided per entry: `TABLE.iter().find(|e| e.0 == 'x')` is the
+    first entry for which the predicate folds to true (None when it folds to false for all); `position` / `any` / `all` likewise.
+    Left alone when some entry before the first hit cannot be decided."""
+    if memo is None:
+        memo = {}
+    if not isinstance(t, tuple) or not t:
+        return t
+    k = id(t)
+    if k in memo and memo[k][0] is t:
+        return memo[k][1]
+    r = tuple(table_fold(x, nz, memo) if isinstance(x, tuple) else x for x in t)
+    if all(a is b for a, b in zip(r, t)):
+        r = t
+    if r[0] == "hof" and r[1] in ("find", "position", "any", "all") and len(r) >= 4:
+        src = norm.strip_adapters(r[2])
+        if src[0] in ("array", "vec") and src[1] and all(partial.is_concrete(x) for x in src[1]):
+            verdicts = []
+            for item in src[1]:
+                b = r[3]
+                for e in (("elem", r[2]), ("elem", src)):
+                    b = terms.replace(b, e, item)
+                b = nz(partial.simplify(char_fold(b)))
+                verdicts.append(True if b == ("lit", True) else False if b == ("lit", False) else None)
+            out = None
+            if r[1] in ("find", "position"):
+                for i, v in enumerate(verdicts):
+                    if v is True:
+                        out = ("ctor", "std::prelude::v1::Some", (src[1][i] if r[1] == "find" else ("lit", terms.Int(i)),))
+                        break
+                    if v is None:
+                        break
+                else:
+                    out = ("ctor", "std::prelude::v1::None", ())
+            elif r[1] == "any":
+                out = ("lit", True) if any(v is True for v in verdicts) else (("lit", False) if all(v is False for v in verdicts) else None)
+            elif r[1] == "all":
+                out = ("lit", False) if any(v is False for v in verdicts) else (("lit", True) if all(v is True for v in verdicts) else None)
+            if out is not None:
+                r = out
     memo[k] = (t, r)
     return r
 
